@@ -34,7 +34,7 @@ static J set_json(const std::set<unsigned long long>& s) { J j = J::arr(); for (
 J Stats::to_json() const {
     J j = J::obj();
     j.set("runs", runs); j.set("trials", trials); j.set("ops", ops); j.set("nontrivial", nontrivial);
-    j.set("loads", loads); j.set("stores", stores); j.set("edges", edges); j.set("events", events);
+    j.set("loads", loads); j.set("stores", stores); j.set("edges", edges); j.set("events", events); j.set("evh", (long long)evh);
     j.set("faults", map_json(faults)); j.set("probes", map_json(probes)); j.set("anomalies", map_json(anomalies));
     j.set("anomaly_example", smap_json(anomaly_example)); j.set("known", map_json(known)); j.set("known_example", smap_json(known_example));
     j.set("signatures", set_json(signatures)); j.set("schedules", set_json(schedules)); j.set("switch_points", set_json(switch_points));
@@ -45,7 +45,7 @@ J Stats::to_json() const {
 Stats Stats::from_json(const J& j) {
     Stats s;
     s.runs = (unsigned long long)j.geti("runs"); s.trials = (unsigned long long)j.geti("trials"); s.ops = (unsigned long long)j.geti("ops"); s.nontrivial = (unsigned long long)j.geti("nontrivial");
-    s.loads = (unsigned long long)j.geti("loads"); s.stores = (unsigned long long)j.geti("stores"); s.edges = (unsigned long long)j.geti("edges"); s.events = (unsigned long long)j.geti("events");
+    s.loads = (unsigned long long)j.geti("loads"); s.stores = (unsigned long long)j.geti("stores"); s.edges = (unsigned long long)j.geti("edges"); s.events = (unsigned long long)j.geti("events"); s.evh = (unsigned long long)j.geti("evh");
     auto rm = [&](const char* k, std::map<std::string, unsigned long long>& m) { if (const J* x = j.get(k)) for (auto& kv : x->o) m[kv.first] = (unsigned long long)kv.second.i; };
     auto rs = [&](const char* k, std::map<std::string, std::string>& m) { if (const J* x = j.get(k)) for (auto& kv : x->o) m[kv.first] = kv.second.s; };
     auto rset = [&](const char* k, std::set<unsigned long long>& m) { if (const J* x = j.get(k)) for (auto& v : x->a) m.insert((unsigned long long)v.i); };
